@@ -1,5 +1,7 @@
 //! C18 — hooked connect(2) against a scripted kernel: blocking mode restored on every path, a non-blocking
-//! descriptor gets EINPROGRESS at once instead of waiting.
+//! descriptor gets the kernel's EINPROGRESS / EALREADY / EAGAIN at once instead of waiting.
+//! Kernel contract: connect on a descriptor in non-blocking mode (the hook forces it) answers 0, one of the three
+//! would-block errnos, or a hard error; it does not answer EINTR (it never blocks).
 use super::*;
 use crate::syscall::unix::__verif_harness_c16_model_rs::*;
 
@@ -28,8 +30,7 @@ impl ConnectSyscall for Kernel {
             let k: u8 = kani::any();
             match k {
                 0 => 0,
-                1 => { put_errno(libc::EINPROGRESS); SAW_EAGAIN = true; -1 }
-                2 => { put_errno(libc::EINTR); -1 }
+                1 => { let e: c_int = kani::any(); kani::assume(e == libc::EINPROGRESS || e == libc::EALREADY || e == libc::EAGAIN); put_errno(e); LAST_FAIL_ERRNO = e; SAW_EAGAIN = true; -1 }
                 _ => { let e: c_int = kani::any(); kani::assume(e == libc::ECONNREFUSED || e == libc::ENETUNREACH || e == libc::EBADF); put_errno(e); -1 }
             }
         }
@@ -47,17 +48,17 @@ fn c18_connect() {
     let keep = (getpeername as usize) ^ (getsockopt as usize);
     kani::assume(keep != 1);
     let nb = begin(4);
+    unsafe { MAX_WAITS = 3; }
     unsafe { PEER_CONNECTED = kani::any(); SO_ERR = kani::any(); SOCKOPT_FAILS = kani::any(); kani::assume(SO_ERR >= 0 && SO_ERR < 200); }
     let nio: NioConnectSyscall<Kernel> = NioConnectSyscall::default();
     let r = nio.connect(None, 3, std::ptr::null(), 0);
     unsafe {
-        kani::assume(WAITS <= 3); // bound on the number of wait rounds (EINPROGRESS can persist)
         kani::assert(NONBLOCK == nb, "C18.blocking_mode_restored_on_return");
         kani::assert(!SAW_BLOCKING_INNER, "C18.inner_call_always_nonblocking");
         kani::assert(r == 0 || r == -1, "C18.connect_returns_0_or_minus_1");
         if nb {
             kani::assert(WAITS == 0, "C18.nonblocking_descriptor_never_waits");
-            if SAW_EAGAIN { kani::assert(r == -1 && errno() == libc::EINPROGRESS, "C18.nonblocking_connect_in_progress_is_einprogress"); }
+            if SAW_EAGAIN { kani::assert(r == -1 && errno() == LAST_FAIL_ERRNO, "C18.nonblocking_connect_reports_the_kernels_would_block_errno"); }
         }
         kani::cover!(r == 0 && WAITS >= 1, "C18.cover_connect_completes_after_waiting");
         kani::cover!(r == -1 && WAITS >= 1, "C18.cover_connect_fails_after_waiting");
